@@ -94,7 +94,11 @@ func OracleC03(c *Case, r *Result) []Finding {
 			if m.Delivered {
 				out = append(out, Finding{"render-failure-delivered", fmt.Sprintf("message %d: rendering fails but IsDelivered() = true", j)})
 			}
-			if !m.HasErr && r.RetKind != "conncheck" {
+			kind := r.RetKind
+			if c.Prog == "reset" && j >= c.Split() {
+				kind = r.RetKind2
+			}
+			if !m.HasErr && kind != "conncheck" {
 				out = append(out, Finding{"render-failure-no-error", fmt.Sprintf("message %d: rendering fails but the message carries no SendError", j)})
 			}
 		}
@@ -373,17 +377,29 @@ func OracleC20(c *Case, r *Result) []Finding {
 			if step == reasonRcpt && strings.Join(rejected, ",") != strings.Join(m.Rcpts, ",") {
 				out = append(out, Finding{"rcpt-list-mismatch", fmt.Sprintf("message %d: rejected recipients %v, SendError lists %v", j, rejected, m.Rcpts)})
 			}
+			if verdict == nil && step == reasonReset {
+				// the NOOP of the connection check after a delivered message was refused: the error is
+				// ErrNoActiveConnection, its reply is not carried (NOOP is not one of the property's positions)
+				if m.Code != 0 || m.Temp || m.ESC != "" {
+					out = append(out, Finding{"code-mismatch-at-noop", fmt.Sprintf("message %d: NOOP refused after delivery, SendError carries code %d temp %v esc %q", j, m.Code, m.Temp, m.ESC)})
+				}
+				break
+			}
 			if verdict == nil {
 				// no reply involved (render failure, rejected connection check): the property speaks about replies only;
 				// go-mail classifies such errors by their text as well (by design, see senderror_test.go)
 				break
 			}
 			if verdict.Code >= 400 && verdict.Code <= 599 {
-				suffix := ""
-				if step == reasonReset {
-					suffix = "-at-rset"
-				}
+				// one class per command position, so that a classifier change at one position always has its own replay
+				suffix := "-at-" + map[int]string{reasonMail: "mail", reasonRcpt: "rcpt", reasonData: "data", reasonClose: "eod", reasonReset: "rset"}[step]
 				if m.Code != verdict.Code {
+					// did the fields come from the RSET that followed the failed step?
+					for i := range seg {
+						if seg[i].Verb == "RSET" && step != reasonReset && seg[i].Code == m.Code && m.Code != 0 {
+							suffix = "-at-rset-after-failure"
+						}
+					}
 					out = append(out, Finding{"code-mismatch" + suffix, fmt.Sprintf("message %d: reply %d at step %d, ErrorCode() = %d", j, verdict.Code, step, m.Code)})
 				}
 				if m.Temp != (verdict.Code/100 == 4) {
@@ -403,21 +419,66 @@ func OracleC20(c *Case, r *Result) []Finding {
 							cl = "esc-not-advertised"
 						}
 					}
-					out = append(out, Finding{cl, fmt.Sprintf("message %d: reply %q (ENHANCEDSTATUSCODES in force: %v), EnhancedStatusCode() = %q, expected %q", j, strings.TrimSpace(verdict.Reply), esc, m.ESC, want)})
+					out = append(out, Finding{cl + suffix, fmt.Sprintf("message %d: reply %q (ENHANCEDSTATUSCODES in force: %v), EnhancedStatusCode() = %q, expected %q", j, strings.TrimSpace(verdict.Reply), esc, m.ESC, want)})
 				}
 			} else if verdict.Code == 0 {
 				if m.Code != 0 || m.Temp || m.ESC != "" {
-					out = append(out, Finding{"code-mismatch", fmt.Sprintf("message %d: connection dropped at step %d but the SendError carries code %d temp %v esc %q", j, step, m.Code, m.Temp, m.ESC)})
+					out = append(out, Finding{"code-mismatch-at-drop", fmt.Sprintf("message %d: connection dropped at step %d but the SendError carries code %d temp %v esc %q", j, step, m.Code, m.Temp, m.ESC)})
 				}
 			}
 		}
 	}
-	if r.RetKind == "joined" || r.RetKind == "nil" || r.RetKind == "close" {
-		if r.RetKind == "joined" && r.Joined != nerr {
-			out = append(out, Finding{"join-count-mismatch", fmt.Sprintf("%d messages carry a SendError, the joined error has %d entries", nerr, r.Joined)})
+	joinCheck := func(kind string, joined, n int, what string) {
+		if kind == "joined" && joined != n {
+			out = append(out, Finding{"join-count-mismatch", fmt.Sprintf("%s: %d messages carry a SendError, the joined error has %d entries", what, n, joined)})
 		}
-		if r.RetKind != "joined" && nerr != 0 {
-			out = append(out, Finding{"join-count-mismatch", fmt.Sprintf("%d messages carry a SendError but Send returned %s", nerr, r.RetKind)})
+		if (kind == "nil" || kind == "close") && n != 0 {
+			out = append(out, Finding{"join-count-mismatch", fmt.Sprintf("%s: %d messages carry a SendError but Send returned %s", what, n, kind)})
+		}
+		if kind == "conncheck" && n != 0 {
+			out = append(out, Finding{"join-count-mismatch", fmt.Sprintf("%s: the connection check failed but %d messages carry a SendError", what, n)})
+		}
+	}
+	if c.Prog == "reset" {
+		n1, n2 := 0, 0
+		for j, m := range r.Msgs {
+			if m.HasErr {
+				if j < c.Split() {
+					n1++
+				} else {
+					n2++
+				}
+			}
+		}
+		joinCheck(r.RetKind, r.Joined, n1, "first Send")
+		joinCheck(r.RetKind2, r.Joined2, n2, "second Send")
+	} else {
+		joinCheck(r.RetKind, r.Joined, nerr, "Send")
+	}
+	// the connection check in front of a batch and the QUIT: the kind of the returned error follows the reply
+	if c.Prog != "reset" {
+		var noop1, quit *smtpx.Event
+		for i := range dlg {
+			e := &dlg[i]
+			if e.Verb == "NOOP" && noop1 == nil {
+				noop1 = e
+			}
+			if e.Verb == "MAIL" && noop1 == nil {
+				break
+			}
+			if e.Verb == "QUIT" {
+				quit = e
+			}
+		}
+		if noop1 != nil && !c.NoNoop {
+			if (noop1.Code != 250) != (r.RetKind == "conncheck") {
+				out = append(out, Finding{"result-mismatch-at-noop", fmt.Sprintf("connection check NOOP answered %d, Send returned %s", noop1.Code, r.RetKind)})
+			}
+		}
+		if quit != nil && nerr == 0 && r.RetKind != "conncheck" && (c.Prog == "" || c.Prog == "das" || c.Prog == "dasn" || c.Prog == "send") {
+			if (quit.Code != 221) != (r.RetKind == "close") {
+				out = append(out, Finding{"result-mismatch-at-quit", fmt.Sprintf("QUIT answered %d, the call returned %s", quit.Code, r.RetKind)})
+			}
 		}
 	}
 	return out
